@@ -1,5 +1,5 @@
 (* C08 — Close is idempotent, final and releases every background goroutine. Theorems over QueueLts (Close / worker / blocked producers), CacheProofs (closed cache behaviour), CallbackLts (timers vs Close). Only `exact` + Print Assumptions. *)
-Require Import KV.Base KV.QueueLts KV.QueueLtsProofs KV.CacheModel KV.CacheProofs KV.CallbackLts KV.CallbackProofs KV.RegistryLts KV.RegistryProofs.
+Require Import KV.Base KV.QueueLts KV.QueueLtsProofs KV.CacheModel KV.CacheProofs KV.CallbackLts KV.CallbackProofs KV.RegistryLts KV.RegistryProofs KV.NotifierLts KV.NotifierProofs.
 Open Scope Z_scope.
 
 (* at most one thread is ever inside Close (closeOnce) *)
@@ -19,7 +19,7 @@ Theorem c08_close_blocks_then_returns :
          QueueLtsProofs.thr s tid th ->
          QueueLts.pc th = P0 ->
          cur th = None ->
-         script th = OClose a :: r ->
+         QueueLts.script th = OClose a :: r ->
          onceDone s = false -> onceHeld s = Some t -> lstepc c s tid = None.
 Proof. exact QueueLtsProofs.close_blocks. Qed.
 
@@ -29,7 +29,7 @@ Theorem c08_close_idempotent :
          QueueLtsProofs.thr s tid th ->
          QueueLts.pc th = P0 ->
          cur th = None ->
-         script th = OClose a :: r ->
+         QueueLts.script th = OClose a :: r ->
          onceDone s = true ->
          lstepc c s tid =
          Some
@@ -69,7 +69,7 @@ Theorem c08_closed_cache :
          fst (op_set c k v ttl cst sh) = c /\
          snd (op_set c k v ttl cst sh) <> 0 /\
          (0 <= cst ->
-          (forall s : shard, get_shard c sh = Some s -> ~ 0 < costcap s < cst) ->
+          (forall s : CacheModel.shard, get_shard c sh = Some s -> ~ 0 < costcap s < cst) ->
           get_shard c sh <> None ->
           snd (op_set c k v ttl cst sh) = 3 /\ snd (op_set_async c k v ttl cst sh) = 3) /\
          fst (op_set_async c k v ttl cst sh) = c /\
@@ -115,7 +115,7 @@ Theorem c08_timer_close_branch :
          CallbackLts.thr s t = TSelect tk fire ->
          ch <> 0%nat ->
          CallbackLts.step s (CallbackLts.LStep t ch) = Some s' ->
-         closeCh s = true /\ CallbackLts.thr s' t = TQuiet tk /\ events s' = events s.
+         CallbackLts.closeCh s = true /\ CallbackLts.thr s' t = TQuiet tk /\ events s' = events s.
 Proof. exact CallbackProofs.B3_close_branch_never_calls. Qed.
 
 (* after Close the table is empty (re-validation of late timers fails) *)
@@ -126,16 +126,36 @@ Theorem c08_closed_is_empty :
          (forall k : key, tab s k = None) /\
          CallbackLts.thr s 0 = WkExited /\
          closed s = true /\
-         closeCh s = true /\ (forall t : CallbackLts.tid, precommit (CallbackLts.thr s t) = false).
+         CallbackLts.closeCh s = true /\
+         (forall t : CallbackLts.tid, precommit (CallbackLts.thr s t) = false).
 Proof. exact CallbackProofs.B3_closed_cache_is_empty. Qed.
 
 (* Remove returns only after closing the instance it forgot *)
 Theorem c08_registry_closes :
-  forall (s : state) (l : label) (s' : state) (t : tid) (n : name) (i : iid),
-         reachable s ->
+  forall (s : RegistryLts.state) (l : RegistryLts.label) (s' : RegistryLts.state) 
+           (t : tid) (n : name) (i : iid),
+         RegistryLts.reachable s ->
          thr s t = RmClose n i \/ thr s t = RmCloseFin n i ->
-         step s l = Some s' -> thr s' t = Done (KRm n) RNil -> i_st (insts s' i) = Closed.
+         RegistryLts.step s l = Some s' -> thr s' t = Done (KRm n) RNil -> i_st (insts s' i) = Closed.
 Proof. exact RegistryProofs.A6_remove_returns_closed. Qed.
+
+(* the notifier's final drain on Close delivers every notification staged before it visited that shard exactly once, then the goroutine exits *)
+Theorem c08_notifier_final_drain :
+  forall (re : Z -> option (nat * Z)) (n : nat) (scripts : list (list (nat * Z))) 
+           (s : state) (sh : nat) (x : Z),
+         reachable re n scripts s ->
+         npos s = NExited ->
+         quiescent s ->
+         NoDup (map snd (staged s)) ->
+         In (sh, x) (staged s) ->
+         ~ In (sh, x) (late s) -> count_occ pair_dec (delivered s) (sh, x) = 1%nat.
+Proof. exact NotifierProofs.close_final_drain_exactly_once. Qed.
+
+(* after the notifier exited no listener is ever called again *)
+Theorem c08_notifier_exited_frozen :
+  forall (re : Z -> option (nat * Z)) (s : state) (l : label) (s' : state),
+         npos s = NExited -> step re s l = Some s' -> npos s' = NExited /\ delivered s' = delivered s.
+Proof. exact NotifierProofs.exited_frozen. Qed.
 
 (* literal nuance: on a closed cache a Set with an invalid cost reports the validation error, not ErrCacheClosed (validation precedes the closed check) *)
 Theorem c08_code_3_literal_refuted :
@@ -157,4 +177,6 @@ Print Assumptions c08_timers_after_close.
 Print Assumptions c08_timer_close_branch.
 Print Assumptions c08_closed_is_empty.
 Print Assumptions c08_registry_closes.
+Print Assumptions c08_notifier_final_drain.
+Print Assumptions c08_notifier_exited_frozen.
 Print Assumptions c08_code_3_literal_refuted.
